@@ -64,7 +64,10 @@ func Main() {
 				os.Exit(5)
 			}
 			px := &mon.Ctx{Prop: pw.Prop, Workload: pw.Name, Config: *config, Variant: *variant, Seed: *seed, Tier: "quick",
-				Shard: (int(*seed%1000) + *shard + i) % k, Shards: k, Only: -1, CaseDeadline: *dl}
+				Shard: (int(*seed%1000) + *shard + i) % k, Shards: k, Only: -1,
+				// no bounded-progress verdicts in a prelude (its workloads have their own jobs and deadlines, some of them
+				// longer than the main workload's): the limit here only keeps a stuck process from living for ever
+				CaseDeadline: 15 * time.Minute}
 			if err := px.Open(os.DevNull, ""); err != nil {
 				fmt.Fprintln(os.Stderr, "open prelude:", err)
 				os.Exit(5)
